@@ -447,9 +447,31 @@ def generate(prng, tier, index):
     motifs = [{"name": names[i], "edges": gen_motif(prng, max_edges)} for i in range(npool)]
     variant = "faults" if index % 4 == 3 else "clean"
     evals = []
+    twin_focal = None
+    if prng.random() < 0.2:
+        # two motifs whose (vertex set, name) pairs become the SAME string under naive concatenation: motif B is motif A
+        # without its largest vertex x, and B is called "<x><sep><name of A>" - a key made by joining labels and name with
+        # <sep> cannot tell A's full component from B's
+        A = motifs[0]
+        vs = sorted({v for e in A["edges"] for v in e})
+        x = vs[-1]
+        rest = [e for e in A["edges"] if x not in e]
+        if all(isinstance(v, int) and v >= 0 for v in vs) and rest and nx.is_connected(nx.Graph([tuple(e) for e in rest])) \
+                and {v for e in rest for v in e} == set(vs[:-1]):
+            sep = prng.choice(("_", "_", "-", " ", "", ",", ", ", ":", "|", "."))
+            motifs[1 % npool if npool > 1 else 0] = {"name": f"{x}{sep}{A['name']}", "edges": [list(e) for e in rest]}
+            if npool > 1:
+                twin_focal = prng.choice(vs[:-1])
     n_ev = prng.randrange(10, 41)
     kinds = prng.choice((("float", "exact"), ("exact", "exact", "poly"), ("exact", "edge", "exact_equal_u", "float"),
                          ("poly", "exact"), ("float", "exact", "poly", "edge")))
+    if twin_focal is not None:
+        # both look-alikes at one common root, in scheduler-chosen order, before the rest of the history
+        for mi in prng.sample((0, 1), 2):
+            verts = sorted({v for e in motifs[mi]["edges"] for v in e})
+            ev = {"m": mi, "focal": twin_focal}
+            ev.update(gen_operands(prng, verts, "exact"))
+            evals.append(ev)
     for _ in range(n_ev):
         if evals and prng.random() < 0.35:
             prev = prng.choice(evals)
